@@ -26,6 +26,7 @@ MD5_WRONG = hashlib.md5(b'something else entirely').hexdigest()
 DATA = ['good', 'corrupt', 'err']
 SUMS = ['correct', 'wrong', 'missing']
 PRIOR = ['absent', 'good', 'corrupt']
+HORIZON = 4      # data requests per call that are choice points (the code makes at most 2)
 
 
 def imports():
@@ -50,6 +51,8 @@ def run_download(prior, sum_mode, choices, data_script=None):
     def data_cb(request):
         if script is not None:
             a = script.pop(0) if script else 'unscripted'
+        elif len(log['data']) >= HORIZON:
+            a = 'good'          # horizon: beyond it the server simply works (bounds a retry loop)
         else:
             a = DATA[choices.choose(3, 'data')]
         log['data'].append(a)
@@ -60,8 +63,10 @@ def run_download(prior, sum_mode, choices, data_script=None):
         return (404, {}, b'not found')
 
     def sum_cb(request):
-        if sum_mode == 'per-request':
+        if sum_mode == 'per-request' and len(log['sum']) < HORIZON + 2:
             s = SUMS[choices.choose(3, 'sum')]
+        elif sum_mode == 'per-request':
+            s = 'correct'
         else:
             s = sum_mode
         log['sum'].append(s)
@@ -91,8 +96,13 @@ def run_download(prior, sum_mode, choices, data_script=None):
             rsps.add_callback(responses.GET, URL + '.md5', callback=sum_cb)
             rsps.add_callback(responses.HEAD, URL, callback=head_cb)
             try:
-                download_file(URL, path)
+                with core.time_limit(5):
+                    download_file(URL, path)
                 out['outcome'] = 'returned'
+            except core.CaseTimeout:
+                out['outcome'] = 'raised_other:no-termination'
+                out['exc'] = 'download_file did not return within 5 s (%d data requests so far)' % \
+                    len(log['data'])
             except requests.exceptions.HTTPError as e:
                 out['outcome'] = 'raised_http'
                 out['exc'] = repr(e)[:120]
@@ -109,6 +119,10 @@ def run_download(prior, sum_mode, choices, data_script=None):
     out['gets'] = len(log['data'])
     out['unscripted'] = 'unscripted' in log['data']
     return out
+
+
+class StopExploration(Exception):
+    pass
 
 
 def direct_oracle(prior, sum_mode, out):
@@ -170,6 +184,10 @@ def run_direct(case, acc, order):
     seen = []
 
     def on_exec(ch, out):
+        if 'no-termination' in out['outcome']:
+            acc.extra['non_terminating_runs'] += 1
+            if acc.extra['non_terminating_runs'] > 3:
+                raise StopExploration()
         # determinism: the same schedule twice gives the same observation
         acc.step(out['gets'] >= 2 or bool(out['sum']) and prior != 'absent',
                  'direct:%s' % out['outcome'])
@@ -192,7 +210,11 @@ def run_direct(case, acc, order):
         out = run(ch)
         on_exec(ch, out)
     else:
-        core.explore_env(run, on_exec)
+        try:
+            core.explore_env(run, on_exec)
+        except StopExploration:
+            acc.extra['exploration_stopped_after_hangs'] += 1
+            return [(scenario_key(prior, mode, o), sc) for sc, o in seen]
         # replay the first and the last schedule again: identical observations required
         for sched, out in (seen[0], seen[-1]):
             out2 = run(core.Choices(sched))
